@@ -82,6 +82,8 @@ def h_summaries(nr, nc, zeros):
             r = t.nonzero_counts('whole')
             if int(r[0]) != sum(len(_nz(row)) for row in a.dense):
                 fail('nonzero_counts:whole', str(r), **sig)
+            r = t.nonzero_counts('whole', binary=False)
+            prove('nonzero_counts:whole-non-binary', eq(r[0], a.total()), **sig)
         elif what == 'density':
             want = sum(len(_nz(row)) for row in a.dense) / float(nr * nc)
             if abs(t.get_table_density() - want) > 1e-12:
